@@ -1,7 +1,7 @@
 ------------------------------ MODULE Gen_Adaptive ------------------------------
 (* Case generator for C08: bytes in the real encoding, the tokens the regular    *)
 (* decoder must report, and whether the case satisfies C08's premise.            *)
-EXTENDS AdaptiveCases, Json
+EXTENDS AdaptiveCases, Json, SequencesExt
 
 VARIABLE c
 GInit == c \in Cases
@@ -16,10 +16,21 @@ LenClass(f) ==
   ELSE IF e = "none" THEN "spells a VR"
   ELSE IF Compatible(v, e) THEN "spells a compatible VR" ELSE "spells an incompatible VR"
 
+(* run-length form of a byte string: <<count, byte>> pairs (long values are uniform runs) *)
+Rle(b) ==
+  LET starts == SetToSortSeq({i \in 1..Len(b) : i = 1 \/ b[i] # b[i - 1]}, LAMBDA p, q : p < q) IN
+  [k \in 1..Len(starts) |->
+     <<(IF k = Len(starts) THEN Len(b) + 1 ELSE starts[k + 1]) - starts[k], b[starts[k]]>>]
+(* long values inside tokens travel in run-length form too *)
+Slim(toks) == [i \in 1..Len(toks) |->
+                 IF Len(toks[i].val) > 64 /\ toks[i].t # "OT"
+                 THEN [toks[i] EXCEPT !.val = Rle(toks[i].val)] @@ [rle |-> TRUE]
+                 ELSE toks[i] @@ [rle |-> FALSE]]
+
 CaseRec(x) ==
   [enc |-> x.enc, stray |-> x.stray, first |-> x.first, amb |-> CaseAmbiguous(x),
    entry |-> DictEntry(x.first.tag), lenclass |-> LenClass(x.first),
-   bytes |-> CaseBytes(x), toks |-> CaseToks(x), total |-> Len(CaseBytes(x)), ds |-> x.ds]
+   rlebytes |-> Rle(CaseBytes(x)), toks |-> Slim(CaseToks(x)), total |-> Len(CaseBytes(x)), ds |-> x.ds]
 Emit == PrintT(<<"CASE", ToJson(CaseRec(c))>>)
 MetaRec == [dictfacts |-> {<<t, KnownTags[t]>> : t \in DOMAIN KnownTags} \cup {<<<<9, 4097>>, "none">>, <<<<114, 121>>, "none">>},
             implicitvr |-> {<<t, ImplicitVR(t)>> : t \in DOMAIN KnownTags}]
